@@ -62,6 +62,7 @@ type mapEntry struct {
 type Map struct {
 	KeyT    types.Type
 	Entries []*mapEntry // insertion order; deleted entries are removed
+	sticky  []*mapEntry // iteration order fixed for this object (MapOrderSticky)
 	id      int
 }
 
